@@ -515,7 +515,9 @@ def parsePelFromPLID(path: str, config: Config):
             try:
                 eid, summary = parsePELSummary(stream, config)
                 if eid :
-                    if plid in summary['PLID']:
+                    # Compare numerically: the displayed PLID has no leading
+                    # zeros, the given one always has 8 digits.
+                    if int(summary['PLID'], 16) == int(plid, 16):
                         if config.hex:
                             printPELInHexFormat(data)
                         else:
